@@ -31,6 +31,7 @@ struct Dumper
      * as the mapped text instead */
     std::map<UTAP::symbol_t, std::string> replace;
     int type_depth = 0;
+    bool field_names = true;  // append the field name of DOT nodes (resolved through the operand's type)
 
     std::string expr(const UTAP::expression_t& e);
     std::string type(const UTAP::type_t& t, int depth = 0);
